@@ -1059,6 +1059,7 @@ pub fn project(name: &str, trace: &[Value]) -> Vec<Value> {
         "progress" => progress(trace),
         "hostile" => hostile(trace),
         "recvlimits" => recvlimits(trace),
+        "dgram" => crate::proj_c16::dgram(trace),
         "master" => trace.to_vec(),
         o => panic!("unknown projection {o}"),
     }
